@@ -87,6 +87,8 @@ fn corner_values() -> Vec<Value> {
         json!("null"), gen::f(1e-320), gen::f(5e-324), gen::f(1e-16), gen::f(-1e-17), gen::f(2.220446049250313e-16), gen::f(0.1), json!(-1), json!(1), json!([null]), json!([""]), json!([false]), json!({"": null}),
         json!("0.0"), json!("-0"), json!("NaN"), json!([[], []]), json!({"var": "x"}), json!({"!!": [false]}), json!([{}]), json!(18446744073709551615u64), json!(i64::MIN), gen::f(f64::MAX), json!("a"),
         json!("\u{0000}"), json!("\u{FEFF}"), json!([0, 0]), gen::f(-1e-320),
+        // strings that other languages or well-meant conveniences read as "no": all non-empty, hence truthy
+        json!("no"), json!("off"), json!("undefined"), json!("None"), json!("nil"), json!("00"), json!("0e0"), json!("0x0"), json!("\t"), json!("\n"), json!("\u{3000}"), json!("\u{00a0}"), json!("FALSE"), json!("f"), json!("n"),
     ]
 }
 
@@ -260,7 +262,7 @@ pub fn property() -> Property {
         subs: vec![
             Sub {
                 name: "corner_matrix",
-                about: "43 corner values (false null 0 -0.0 \"\" [] \"0\" [0] [[]] {} tiny and huge numbers, look-alike strings, operation-shaped objects ...) x 8 routes (literal, var, element, result of if / or / and / reduce / var-default) x 11 deciding positions (! !! if ?: else-if and or filter all some none), each wrapped so that the result reveals the decision; oracle = the table transcribed from the statement.",
+                about: "58 corner values (false null 0 -0.0 \"\" [] \"0\" [0] [[]] {} tiny and huge numbers, look-alike strings, operation-shaped objects ...) x 8 routes (literal, var, element, result of if / or / and / reduce / var-default) x 11 deciding positions (! !! if ?: else-if and or filter all some none), each wrapped so that the result reveals the decision; oracle = the table transcribed from the statement.",
                 nontrivial: "a value on which JavaScript, Python or PHP truthiness could differ from the JsonLogic table (containers, \"0\", \"false\", \"\", zero / tiny numbers).",
                 strategy: None,
                 fixed: Some(fixed_matrix),
